@@ -98,7 +98,7 @@ Variable c : rcfg.
 Variable version total : N.
 Variable jl : list (N * N).
 Variable img : image.
-Hypothesis Hrw : c_ro c = false.
+Hypothesis Hmode : c_ro c = false \/ jl = [].
 Hypothesis Htok : has_token version = true.
 Hypothesis Hmax : total <= U64MAX.
 
@@ -150,7 +150,7 @@ Proof.
       assert (Hin : sector + extent_blocks version (N.of_nat (length (r_key r))) (N.of_nat (length (r_value r))) <= total).
       { fold (need_of version r). lia. }
       cbn [iblocks].
-      rewrite (scan_step_accepts_encoded_record version sector r K0 Hf V0 Vmax Ts Ex c total st jl _ Kmax Hin st4 (or_introl Hrw)
+      rewrite (scan_step_accepts_encoded_record version sector r K0 Hf V0 Vmax Ts Ex c total st jl _ Kmax Hin st4 Hmode
                  (Hfresh r (or_introl eq_refl)) G).
       cbn [bind]. fold (need_of version r). destruct (N.leb_spec (sector + need_of version r) sector); [lia|].
       set (st1 := mkrs (idx_upsert (mkentry (r_key r) (r_ts r) (if has_expiry version then r_exp r else 0) (N.of_nat (length (r_value r))) sector) (rs_idx st4))
@@ -191,7 +191,7 @@ Proof.
            ++ intros b Hb [Hc|Hc]; [lia|]. exact (Beyond b Hb Hc).
     + (* a completed marker run *)
       cbn [recs_of isize iblocks] in *.
-      rewrite (scan_step_skips_a_complete_marker_run c version total sector n st jl _ Hrw Htok Hit ltac:(lia) Hmax).
+      rewrite (scan_step_skips_a_complete_marker_run c version total sector n st jl _ Hmode Htok Hit ltac:(lia) Hmax).
       cbn [bind]. destruct (N.leb_spec (sector + n) sector); [lia|].
       assert (SI1 : SInv total (sector + n) st) by (destruct SI; constructor; try assumption; lia).
       destruct (IH f (sector + n) st Ht Hd Hfresh SI1 Hskip ltac:(lia) Hf')
@@ -201,7 +201,7 @@ Proof.
       * intros b Hb [[]|Hc]. exact (Beyond b Hb Hc).
     + (* a free block *)
       cbn [recs_of isize iblocks] in *. cbn [app].
-      rewrite (scan_step_skips_a_zero_block c version total sector st jl _ (or_introl Hrw)).
+      rewrite (scan_step_skips_a_zero_block c version total sector st jl _ Hmode).
       cbn [bind]. destruct (N.leb_spec (sector + 1) sector); [lia|].
       assert (SI1 : SInv total (sector + 1) st) by (destruct SI; constructor; try assumption; lia).
       destruct (IH f (sector + 1) st Ht Hd Hfresh SI1 Hskip ltac:(lia) Hf')
@@ -272,6 +272,49 @@ Qed.
 (* open_image (read-write, TTL off) on a file whose selected metadata copy decodes to a version-3
    metadata, whose journal decodes to "clear", and whose data area is a quiescent layout: it opens,
    leaves the file as it is, and reports exactly the records and the partition *)
+Theorem open_reads_a_quiescent_file_in_either_mode c img m jgen jslot its :
+  c_now c = None ->
+  (17 <= length img)%nat ->
+  let total := N.of_nat (length img) in
+  let mb := if select_meta (nth_block img 0) (nth_block img (N.to_nat FEOX_METADATA_BACKUP_BLOCK))
+            then nth_block img (N.to_nat FEOX_METADATA_BACKUP_BLOCK) else nth_block img 0 in
+  list_eqb (firstn 8 mb) SIGNATURE = true -> decode_meta mb = Some m -> has_token (m_version m) = true ->
+  decode_journal (slot_bytes img 0) (slot_bytes img 1) total = Some (jgen, jslot, []) ->
+  total * FEOX_BLOCK_SIZE < U64 ->
+  Forall (item_ok (m_version m)) its -> distinct_keys (recs_of its) ->
+  skipn (N.to_nat FEOX_DATA_START_BLOCK) img = ilayout (m_version m) FEOX_DATA_START_BLOCK its ->
+  exists o,
+    open_image c img = (Ok o, img) /\
+    o_version o = m_version m /\ o_img o = img /\
+    (forall r, In r (recs_of its) -> exists s, idx_find (r_key r) (o_idx o) = Some (entry_of (m_version m) r s)) /\
+    o_count o = N.of_nat (length (recs_of its)) /\
+    (forall b, FEOX_DATA_START_BLOCK <= b < total ->
+               (free (o_fs o) b <-> ~ covered (m_version m) FEOX_DATA_START_BLOCK its b)).
+Proof.
+  intros Hnow Hlen total mb Hsig Hdec Htok Hj Hu Hok Hd Himg.
+  assert (Hlay : length (ilayout (m_version m) FEOX_DATA_START_BLOCK its) = N.to_nat (isum (m_version m) its)) by (apply ilayout_length; exact Hok).
+  assert (Htot : total = FEOX_DATA_START_BLOCK + isum (m_version m) its).
+  { pose proof (f_equal (@length block) Himg) as L. rewrite skipn_length, Hlay in L. unfold total. unfold FEOX_DATA_START_BLOCK in *. lia. }
+  assert (Hpos : 0 < isum (m_version m) its) by (unfold total, FEOX_DATA_START_BLOCK in Htot; lia).
+  assert (Hmax : total <= U64MAX) by (unfold U64, U64MAX, FEOX_BLOCK_SIZE in *; lia).
+  assert (Hfuel : (length its < S (length img))%nat).
+  { pose proof (items_le_blocks _ _ Hok). unfold total, FEOX_DATA_START_BLOCK in Htot. lia. }
+  set (st0 := mkrs [] (mkfs [] (total * FEOX_BLOCK_SIZE) 0 0) 0 0 0 [] FEOX_DATA_START_BLOCK 0).
+  destruct (quiescent_data_area_is_partitioned c (m_version m) total [] img (or_intror eq_refl) Htok Hmax its st0 (S (length img)) Hfuel
+              eq_refl eq_refl eq_refl Hu Hok Hd Himg Htot Hpos)
+    as (st' & st'' & Sc & Rel & Found & Cnt & Ret' & Ret & Part).
+  unfold open_image. fold total.
+  destruct (Nat.ltb_spec (length img) 17); [lia|].
+  fold mb. rewrite Hsig. cbn [negb]. rewrite Hdec, Hj.
+  assert (JL : (if c_ro c then sort_by_start [] else []) = ([] : list (N * N))) by (destruct (c_ro c); reflexivity).
+  destruct (c_ro c) eqn:RO; cbn [replay sort_by_start fold_right];
+    fold st0; rewrite Sc; cbn [bind]; rewrite Hnow; cbn [bind];
+    cbn [st0 rs_retired] in Ret'; try rewrite Ret'; cbn [length retire_two Nat.sub skipn firstn retire_extents negb];
+    rewrite Rel;
+    (eexists; split; [reflexivity|]; cbn [o_version o_img o_idx o_count o_fs];
+     split; [reflexivity|]; split; [reflexivity|]; split; [exact Found|]; split; [rewrite Cnt; reflexivity|exact Part]).
+Qed.
+
 Theorem open_reads_a_quiescent_file c img m jgen jslot its :
   c_ro c = false -> c_now c = None ->
   (17 <= length img)%nat ->
@@ -290,28 +333,7 @@ Theorem open_reads_a_quiescent_file c img m jgen jslot its :
     o_count o = N.of_nat (length (recs_of its)) /\
     (forall b, FEOX_DATA_START_BLOCK <= b < total ->
                (free (o_fs o) b <-> ~ covered (m_version m) FEOX_DATA_START_BLOCK its b)).
-Proof.
-  intros Hrw Hnow Hlen total mb Hsig Hdec Htok Hj Hu Hok Hd Himg.
-  assert (Hlay : length (ilayout (m_version m) FEOX_DATA_START_BLOCK its) = N.to_nat (isum (m_version m) its)) by (apply ilayout_length; exact Hok).
-  assert (Htot : total = FEOX_DATA_START_BLOCK + isum (m_version m) its).
-  { pose proof (f_equal (@length block) Himg) as L. rewrite skipn_length, Hlay in L. unfold total. unfold FEOX_DATA_START_BLOCK in *. lia. }
-  assert (Hpos : 0 < isum (m_version m) its) by (unfold total, FEOX_DATA_START_BLOCK in Htot; lia).
-  assert (Hmax : total <= U64MAX) by (unfold U64, U64MAX, FEOX_BLOCK_SIZE in *; lia).
-  assert (Hfuel : (length its < S (length img))%nat).
-  { pose proof (items_le_blocks _ _ Hok). unfold total, FEOX_DATA_START_BLOCK in Htot. lia. }
-  set (st0 := mkrs [] (mkfs [] (total * FEOX_BLOCK_SIZE) 0 0) 0 0 0 [] FEOX_DATA_START_BLOCK 0).
-  destruct (quiescent_data_area_is_partitioned c (m_version m) total [] img Hrw Htok Hmax its st0 (S (length img)) Hfuel
-              eq_refl eq_refl eq_refl Hu Hok Hd Himg Htot Hpos)
-    as (st' & st'' & Sc & Rel & Found & Cnt & Ret' & Ret & Part).
-  unfold open_image. fold total.
-  destruct (Nat.ltb_spec (length img) 17); [lia|].
-  fold mb. rewrite Hsig. cbn [negb]. rewrite Hdec, Hj. rewrite Hrw. cbn [replay].
-  fold st0. rewrite Sc. cbn [bind]. rewrite Hnow. cbn [bind].
-  cbn [st0 rs_retired] in Ret'. rewrite Ret'. cbn [length retire_two Nat.sub skipn firstn retire_extents negb].
-  rewrite Rel.
-  eexists. split; [reflexivity|]. cbn [o_version o_img o_idx o_count o_fs].
-  split; [reflexivity|]. split; [reflexivity|]. split; [exact Found|]. split; [rewrite Cnt; reflexivity|exact Part].
-Qed.
+Proof. intros _. apply open_reads_a_quiescent_file_in_either_mode. Qed.
 
 (* C04 on files at rest: the open leaves the bytes alone, so opening again -- any number of times --
    gives the same answer *)
